@@ -377,8 +377,25 @@ type zzTwoIntsWide struct {
 // the same process: (a) the same destination TYPE is filled from two source struct types that order
 // their fields differently; (b) a destination VALUE is reused: converting an empty (or shorter) list
 // into a holder that still contains the previous result leaves exactly the new contents.
+type zzSrcUnexported struct {
+	count int16 // unexported members take part in the by-name matching too
+	Name  string
+	flags []uint8
+}
+
 func C20Sequences() {
-	switch sym.Choose("sequence", 4) {
+	switch sym.Choose("sequence", 5) {
+	case 4:
+		// unexported source members (the existing suite does this with a bool): integers and lists too
+		src := zzSrcUnexported{count: sym.I16("count"), Name: sym.Str("name", 1), flags: []uint8{sym.U8("f0")}}
+		var dst zzDstStruct
+		sym.Assert(ConvertFrom(&dst, src) == nil, "unexported/ok")
+		sym.Assert(dst.COUNT == int64(src.count), "unexported/count")
+		sym.Assert(sym.EqStr(dst.Name, src.Name), "unexported/name")
+		sym.Assert(len(dst.Flags) == 1, "unexported/flags-len")
+		if len(dst.Flags) == 1 {
+			sym.Assert(dst.Flags[0] == uint32(src.flags[0]), "unexported/flags-elem")
+		}
 	case 3:
 		// two successive replies of the same remote type decoded through DecodeFrom (what Proxy.Call2
 		// does at every call): the second result holds exactly the second reply's entries
